@@ -120,6 +120,24 @@ func c14RenderWith(r *fw.Rec, ws *writerSpec, w gozxing.Writer, content string, 
 			hints[gozxing.EncodeHintType_MARGIN] = fmt.Sprint(margin) // string form
 		}
 	}
+	if ws.Name == "QR_CODE" && r.Rng.Intn(4) == 0 {
+		// a forced mask (and sometimes a forced version): the module matrix is then the encoder's
+		// for the same hints, and the rendering must show THAT matrix
+		if hints == nil {
+			hints = map[gozxing.EncodeHintType]interface{}{}
+		}
+		eh := map[gozxing.EncodeHintType]interface{}{gozxing.EncodeHintType_QR_MASK_PATTERN: r.Rng.Intn(8)}
+		if r.Rng.Intn(3) == 0 {
+			eh[gozxing.EncodeHintType_QR_VERSION] = (len(mod)-17)/4 + r.Rng.Intn(3)
+		}
+		if code, err := qrenc.Encoder_encode(content, qrdec.ErrorCorrectionLevel_L, eh); err == nil {
+			mod = byteMatrixToBools(code.GetMatrix())
+			for k, v := range eh {
+				hints[k] = v
+			}
+			r.Tally("qr_renderings_with_forced_mask_or_version")
+		}
+	}
 	if ws.Name == "QR_CODE" && r.Rng.Intn(3) == 0 {
 		// the level the module matrix was built with, said explicitly (string or typed): the
 		// other hints of the same call keep their meaning
@@ -144,6 +162,19 @@ func c14RenderWith(r *fw.Rec, ws *writerSpec, w gozxing.Writer, content string, 
 			r.Tally("renderings_by_zero_value_writers")
 		}
 	}
+	var before map[gozxing.EncodeHintType]interface{}
+	if hints != nil {
+		before = map[gozxing.EncodeHintType]interface{}{}
+		for k, v := range hints {
+			before[k] = v
+		}
+	}
+	defer func() {
+		// the hint map is the caller's: a writer reads it
+		if hints != nil && fmt.Sprint(before) != fmt.Sprint(hints) {
+			r.Violation("model-mismatch", "render:"+ws.Name+":hint-map-changed-by-the-writer", fmt.Sprintf("%s.Encode changed the caller's hint map from %v to %v", ws.Name, before, hints), map[string]interface{}{"writer": ws.Name, "content": content})
+		}
+	}()
 	var bm *gozxing.BitMatrix
 	var err error
 	via := "Encode"
@@ -441,6 +472,7 @@ func c14(c *fw.Ctx) {
 	c.Floor("renders_via_EncodeWithoutHint", 500)
 	c.Floor("qr_renderings_with_level_hint_next_to_margin", 1000)
 	c.Floor("renderings_by_zero_value_writers", 500)
+	c.Floor("qr_renderings_with_forced_mask_or_version", 1000)
 	c.Floor("renderings_of_rectangular_2d_symbols", 50)
 	c.Floor("renderings_with_modules_of_33_pixels_or_more", 150)
 	c.Floor("renderings_consumed_as_image", 5000)
